@@ -226,6 +226,9 @@ func flattenWire(c dom.Container) []any {
 func guard(f func()) (outcome string, text string) {
 	defer func() {
 		if r := recover(); r != nil {
+			if _, ok := r.(driverDead); ok {
+				panic(r) // not the implementation's panic: the model driver went away
+			}
 			outcome, text = "panic", fmt.Sprint(r)
 		}
 	}()
